@@ -81,6 +81,15 @@ def mk_structure(t, n, strat='MGSR'):
     wit = 'extern "C" void @W@(const %s& A, %s& Q, %s& R){ qr<QRCompType::%s>(A, Q, R); }' % (tt, tt, tt, strat)
     lower = [i * n + j for i in range(n) for j in range(n) if i > j]
     obl = [{'kind': 'const', 'region': 'R', 'cells': lower, 'value': 0}]
+    # Gram-Schmidt kernels: the orthogonality bound O(eps*cond) of the property holds for the MODIFIED scheme, in which the coefficient
+    # R(i,j) is taken against column j already deflated by the earlier directions; taking it against the original column (classical
+    # Gram-Schmidt) is the same function in exact arithmetic but loses orthogonality like eps*cond^2 (Bjorck 1967).  Structural
+    # necessary condition, checked on the value flow: the term stored in R(i,j), 1 <= i < j, is computed from the term stored in
+    # R(i-1,j).  Only applied while the Gram-Schmidt kernel qr_mgsr_dispatcher is what the call reaches.
+    for i in range(1, n):
+        for j in range(i + 1, n):
+            obl.append({'kind': 'contains', 'region': 'R', 'cell': i * n + j, 'sub_region': 'R', 'sub_cell': (i - 1) * n + j, 'only_if_func': 'qr_mgsr_dispatcher',
+                        'why': 'R(%d,%d) is not computed from the column deflated by direction %d (classical instead of modified Gram-Schmidt: orthogonality degrades like eps*cond^2)' % (i, j, i - 1)})
     # Gram-Schmidt causality: column i of Q and R[i,i] depend at least on columns 0..i of A
     for i in (0, n - 1):
         need = [r * n + c for r in range(n) for c in range(i + 1)]
